@@ -466,10 +466,43 @@ def run_sample(run):
     return out
 
 
+class Verdicts:
+    """Clause counting + de-duplicated violations (same interface as monitors.Verdicts; kept here so
+    that engine H does not import the engine-P monitor module inside every child)."""
+
+    def __init__(self, prop, ident_base=None):
+        self.prop = prop
+        self.violations = []
+        self.clauses = {}
+        self.base = ident_base or {}
+        self._seen = set()
+        self.max_resid = {}
+
+    def ev(self, clause, n=1):
+        self.clauses[clause] = self.clauses.get(clause, 0) + n
+
+    def resid(self, clause, r):
+        if r == r:
+            self.max_resid[clause] = max(self.max_resid.get(clause, 0.0), float(r))
+
+    def fail(self, clause, identity, witness, detail=""):
+        ident = dict(self.base)
+        ident.update(identity)
+        key = (clause, core.digest(ident))
+        if key in self._seen:
+            return
+        self._seen.add(key)
+        self.violations.append(core.Violation(self.prop, clause, ident, witness, detail))
+
+    def check(self, clause, ok, identity, witness, detail=""):
+        self.ev(clause)
+        if not ok:
+            self.fail(clause, identity, witness() if callable(witness) else witness, detail)
+        return ok
+
+
 def execute(spec, prop, monitor):
     """Runs every herd run of the history in this (forked) process and applies `monitor`."""
-    from . import monitors
-
     log = core.EventLog()
     d = world.enter_history("%s-%s" % (prop.lower(), spec["h"]))
     violations, nontrivial, clauses, probes, statuses, max_resid = [], [], {}, {}, {}, {}
@@ -491,7 +524,7 @@ def execute(spec, prop, monitor):
                 log.add("JOB_END", status=t.status, digest=t.digest)
                 continue
             sim_months += t.months * len(t.herds)
-            V = monitors.Verdicts(prop, {})
+            V = Verdicts(prop, {})
             monitor(t, V)
             nt = is_nontrivial(t)
             probes["runs_ok"] = probes.get("runs_ok", 0) + 1
